@@ -42,6 +42,7 @@ structure SGroup where
   act : Option DataAct := none
   truncate : Bool := false          -- the peer ends the data stream without a TLS close-notify
   startTls : Bool := false
+  reset : Bool := false             -- the data peer ends the connection with a reset (RST) instead of an orderly close
   dataOtherCert : Bool := false     -- the data peer handshakes with the other TLS context (certificate of another CA)
   closes : Bool := false            -- the server drops the control connection after this group (X) or sends garbage (G)
   deriving Repr
@@ -59,8 +60,8 @@ def parseGroup (s : String) : Option SGroup := do
       | 'c' :: _ => pure ()
       | 'D' :: t =>
         match (String.ofList t).splitOn ":" with
-        | ["send", p, _, e] => let p ← parsePayload p; g := { g with act := some (.send p), truncate := e.startsWith "t", dataOtherCert := e.contains 'b' }
-        | ["recv", _, e] => g := { g with act := some .recv, dataOtherCert := e.contains 'b' }
+        | ["send", p, _, e] => let p ← parsePayload p; g := { g with act := some (.send p), truncate := e.startsWith "t", reset := e.startsWith "r", dataOtherCert := e.contains 'b' }
+        | ["recv", _, e] => g := { g with act := some .recv, reset := e.startsWith "r", dataOtherCert := e.contains 'b' }
         | ["none"] => g := { g with act := some .touch }
         | _ => none
       | _ => none
